@@ -92,6 +92,11 @@ class HierDictDocument(DictDocument):
             if self.ignore_wrappers:
                 doc = doc.get(class_name, None)
 
+            if doc is None:
+                # no arguments at all. an empty list would make the call fail
+                # with a TypeError (missing positional arguments).
+                doc = {}
+
             result_message = self._doc_to_object(ctx, body_class, doc,
                                                                  self.validator)
             ctx.in_object = result_message
